@@ -63,6 +63,8 @@ class WordEngine(SX.Engine):
                 src = r["o"]["k"].get("ty")
             dst = r["ty"]
             bits = {"u8": 8, "u16": 16, "u32": 32, "u64": 64, "u128": 128, "usize": 64, "i64": 64, "i128": 128, "bool": 1}
+            if isinstance(v, SX.Ref) or (isinstance(v, SX.Obj) and v.adt in ("array", "tuple")):
+                return v          # pointer coercions (unsizing &[T; N] -> &[T]) keep the value
             if isinstance(v, SX.Cond):
                 # bool -> integer
                 if v.kind == "eq" and isinstance(v.a, Q) and isinstance(v.b, Q) and v.b.is_zero() and any(v.a.equals(hi) for (_, _, hi) in self.decomp):
@@ -133,7 +135,9 @@ class WordEngine(SX.Engine):
             ty = fr.fn.local_ty(l)
             if not projs:
                 return ty == "u64"
-            return ty.startswith("[u64;") and len(projs) == 1      # element of a limb array
+            if projs == ["*"]:
+                return ty in ("&u64", "&mut u64")
+            return (ty.startswith("[u64;") and len(projs) == 1) or ("MulBuffer" in ty and len(projs) == 2)      # element of a limb array
         return "k" in o and o["k"].get("ty") == "u64"
 
     def reduce(self, q):
